@@ -5,7 +5,7 @@ from . import extract
 from .facts import Facts
 
 VERIF = extract.VERIF
-EVIDENCE = os.path.join(VERIF, "evidence")
+EVIDENCE = os.environ.get("VJSX_EVIDENCE") or os.path.join(VERIF, "evidence")   # tools/parallel.py: scratch directory per worker
 FLOORS = os.path.join(VERIF, "rules", "floors.json")
 KNOWN = os.path.join(VERIF, "known_findings.json")
 
